@@ -120,6 +120,42 @@ func listForm(r *recorder, w string) map[string]any {
 	return out
 }
 
+// dfForm: the quoted value as a bare term under an operator, scoped by a default field:  "w" AND g:y  with WithDefaultField("dd").
+func dfForm(r *recorder, w string) map[string]any {
+	q := "\"" + w + "\" AND g:y"
+	pr := r.record(0, q, "dd")
+	out := map[string]any{"q": q, "outcome": pr.Outcome, "top": "", "lop": "", "op": "NIL", "ty": "", "codes": []int{}, "col": []int{}}
+	str := func(x any) string { s, _ := x.(string); return s }
+	out["top"] = str(pr.Tree["op"])
+	if l, ok := pr.Tree["l"].(Tree); ok {
+		out["lop"] = str(l["op"])
+		if leaf, ok := l["r"].(Tree); ok {
+			out["op"], out["ty"] = str(leaf["op"]), str(leaf["ty"])
+			if v, isStr := leaf["v"].(string); isStr {
+				out["codes"] = codes(v)
+			}
+		}
+		if c, ok := l["l"].(Tree); ok {
+			if v, isStr := c["v"].(string); isStr {
+				out["col"] = codes(v)
+			}
+		}
+	}
+	var params []any
+	sqlp := guard(func() (string, int, error) {
+		s, ps, err := lucene.ToParameterizedPostgres(q, lucene.WithDefaultField("dd"))
+		params = ps
+		return s, len(ps), err
+	})
+	out["par_out"] = sqlp.Out
+	prs := []any{}
+	for _, p := range params {
+		prs = append(prs, paramRec(p))
+	}
+	out["params"] = prs
+	return out
+}
+
 // valueForms records everything C08 looks at for one query text.
 func valueForms(r *recorder, q string) map[string]any {
 	pr := r.record(0, q, "")
@@ -188,7 +224,7 @@ func cmdQuoteEnum(args []string) {
 		if looksNumeric(w) { // the number spelled bare is rendered first: nothing of that call may show in the quoted one
 			valueForms(r, "f:"+w)
 		}
-		line := map[string]any{"id": id, "wsyms": append([]string{}, seq...), "w": codes(w), "quoted": valueForms(r, `f:"`+w+`"`), "listed": listForm(r, w)}
+		line := map[string]any{"id": id, "wsyms": append([]string{}, seq...), "w": codes(w), "quoted": valueForms(r, `f:"`+w+`"`), "listed": listForm(r, w), "dfterm": dfForm(r, w)}
 		applicable := w != "" && !looksNumeric(w) && !isKeyword(w)
 		line["esc_applicable"] = applicable
 		if applicable {
